@@ -19,6 +19,7 @@ import (
 	"verif/harness/internal/c12"
 	"verif/harness/internal/c13"
 	"verif/harness/internal/c14"
+	"verif/harness/internal/c16"
 	"verif/harness/internal/c17"
 	"verif/harness/internal/c19"
 	"verif/harness/internal/c20"
@@ -153,6 +154,9 @@ func main() {
 	case "C14":
 		res.Rule = "rounds of a mixed workload on one connection (requests and responses of 1 B..300 kB, notifications, cancels, streams, reverse calls, pings every 2-3 ms on both ends, a reconnect in odd rounds) with seed-driven delays inside every hooked section; per round: every connection's write-lock trace replayed through the model, every wire frame checked; distinct = round (seed); every round is non-trivial"
 		err = c14.Run(d, res, *seed, thorough)
+	case "C16":
+		res.Rule = "populations of 1,2,3,5 simultaneously connected clients x concurrent forward calls each making sequential or parallel reverse calls (plain, method-tagged through a client-side alias, nested forward call inside the reverse handler, failing handler, missing method): every reverse result must carry the identity of the client being served; loss of the calling client's connection (FIN, RST, client close) before the reverse call, during it, inside the reverse request frame and inside the reverse response frame, with the handler's or a background context: the reverse call and a later one must return an error within 2 s, never another client's answer, survivors unaffected; no reverse client over HTTP or without the server option; every endpoint's trace is replayed through Jrpc.Corr; distinct = scenario parameters"
+		err = c16.Run(d, res, *seed, thorough)
 	case "C17":
 		res.Rule = "(ping, timeout) pairs satisfying ping < timeout/2 x the server's own ping interval {library default 5 s, disabled, same as the client's}: a call lasting 3 timeouts, an idle period of 2 timeouts, short calls — exactly one connection may be accepted; and silent-peer runs (blackhole while idle / during a call): the pending call must fail with the typed connection error and a redial must start within 4 timeouts + 100 ms; the timed hook trace (activity, renewals, read failures) is replayed through the model's acceptor; distinct = (pair, server ping | when)"
 		err = c17.Run(d, res, *seed, thorough)
